@@ -1,5 +1,6 @@
 import Utv.Model.C13
 import Utv.Lemmas.C13Json
+import Utv.Lemmas.C13Wf
 /-!
 C13 — the generated JSON Schema is valid and describes what the parser does.
 
@@ -256,5 +257,99 @@ theorem C13_mode_param_ignored_witness :
 example : ∃ cfg c fs a, KnownDefect.modeIgnored cfg c = false ∧
     propertyNames (generate ⟨false, cfg.genMode⟩ (.data c fs a)) = ["a"] :=
   ⟨⟨false, none⟩, witnessClass, [.mk witnessField (.plain .int)], .any, by decide, by decide⟩
+
+/-! ## Part 2 — the generated document is a well-formed 2020-12 schema -/
+
+theorem seqPrim_array (p : Prim) (h : (p == .list || p == .set || p == .tuple) = true) : getPrimitive p = "array" := by
+  cases p <;> simp at h <;> rfl
+
+mutual
+theorem wf_gen (cfg : Cfg) : (t : Ty) → wfTy t = true → wfKws (gen cfg t) = true
+  | .any, _ => by rw [gen.eq_def]; exact wfKws_nil
+  | .plain p, _ => by rw [gen.eq_def]; exact wf_plainSchema p
+  | .scalar p m cs, h => by
+    rw [wfTy.eq_def] at h
+    simp only [Bool.and_eq_true] at h
+    rw [gen.eq_def]
+    simp only [wfKws_append, wf_ruleHead, Bool.true_and]
+    exact wf_scalar_cons p m cs h.1 h.2
+  | .seq p m cs item, h => by
+    rw [wfTy.eq_def] at h
+    simp only [Bool.and_eq_true] at h
+    have ih := wf_gen cfg item h.2
+    rw [gen.eq_def]
+    simp only [wfKws_append, wf_ruleHead, Bool.true_and, wfKws_cons, wfKws_nil, Bool.and_true]
+    rw [wf_array_cons p m cs (seqPrim_array p h.1.1.1) h.1.1.2 h.1.2, Bool.true_and]
+    simp [wfEntry, schemaKeywords, wf_obj, ih]
+  | .tup m cs items, h => by
+    rw [wfTy.eq_def] at h
+    simp only [Bool.and_eq_true] at h
+    have ih := wf_genList cfg items h.2
+    rw [gen.eq_def]
+    simp only [wfKws_append, wf_ruleHead, Bool.true_and, wfKws_cons, wfKws_nil, Bool.and_true]
+    rw [wf_array_cons .tuple m cs rfl h.1.1.1 h.1.1.2, Bool.true_and]
+    cases items with
+    | nil => simp at h
+    | cons t rest =>
+      rw [genList.eq_def] at ih ⊢
+      simp only [wfList_cons, Bool.and_eq_true] at ih
+      simp [wfEntry, schemaKeywords, schemaArrayKeywords, ih.1, ih.2]
+  | .map m cs key val, h => by
+    rw [wfTy.eq_def] at h
+    simp only [Bool.and_eq_true] at h
+    have ih := wf_gen cfg val h.2
+    rw [gen.eq_def]
+    simp only [wfKws_append, wf_ruleHead, Bool.true_and, wfKws_cons, wfKws_nil, Bool.and_true]
+    rw [wf_object_cons m cs h.1.1.1 h.1.1.2, Bool.true_and]
+    simp [wfEntry, schemaKeywords, schemaArrayKeywords, schemaMapKeywords, wfMap_cons, wfMap_nil, wf_obj, ih]
+  | .enum e, _ => by rw [gen.eq_def]; exact wf_enumSchema e
+  | .logic op ts, h => by
+    rw [wfTy.eq_def] at h
+    simp only [Bool.and_eq_true] at h
+    have ih := wf_genList cfg ts h.2
+    rw [gen.eq_def]
+    simp only [wfKws_cons, wfKws_nil, Bool.and_true]
+    cases ts with
+    | nil => simp at h
+    | cons t rest =>
+      rw [genList.eq_def] at ih ⊢
+      simp only [wfList_cons, Bool.and_eq_true] at ih
+      cases op <;> simp [opName, wfEntry, schemaKeywords, schemaArrayKeywords, ih.1, ih.2]
+  | .data c fields addTy, h => by
+    rw [wfTy.eq_def] at h
+    simp only [Bool.and_eq_true] at h
+    have ihF := wf_genFields cfg (effOpts cfg c) fields h.1.2
+    have ihA := wf_gen cfg addTy h.2
+    rw [gen.eq_def]
+    simp only [wfKws_append, wfKws_cons, wfKws_nil, Bool.and_true]
+    rw [wf_reqSeg _ _ _ (by rw [← fieldNames_eq]; exact h.1.1.2), wf_depSeg _ _ _ (wfFields_deps fields h.1.2),
+      wf_addSeg _ _ ihA, wf_classAnnotations]
+    simp [wfEntry, wfSimple, wfType, primitiveNames, schemaKeywords, schemaArrayKeywords, schemaMapKeywords, ihF]
+theorem wf_genList (cfg : Cfg) : (ts : List Ty) → wfTys ts = true → wfList (genList cfg ts) = true
+  | [], _ => by rw [genList.eq_def]; exact wfList_nil
+  | t :: rest, h => by
+    rw [wfTys.eq_def] at h
+    simp only [Bool.and_eq_true] at h
+    rw [genList.eq_def]
+    simp only [wfList_cons, wf_obj, wf_gen cfg t h.1, wf_genList cfg rest h.2, Bool.and_self]
+theorem wf_genFields (cfg : Cfg) (o : Opts) : (fs : List Fld) → wfFields fs = true → wfMap (genFields cfg o fs) = true
+  | [], _ => by rw [genFields.eq_def]; exact wfMap_nil
+  | .mk m ty :: rest, h => by
+    rw [wfFields.eq_def] at h
+    simp only [Bool.and_eq_true] at h
+    have ih1 := wf_gen cfg ty h.1.2
+    have ih2 := wf_genFields cfg o rest h.2
+    rw [genFields.eq_def]
+    by_cases hv : fieldVisible cfg o m = true
+    · simp only [hv, if_true, wfMap_cons, wf_obj, wfKws_append, ih1, wf_fieldExtras, ih2, Bool.and_self]
+    · simp only [hv]; exact ih2
+end
+
+/-- `C13_wf`: for every well-formed declaration, every generator mode and both views, the generated document
+satisfies the 2020-12 metaschema (restricted to the vocabulary the generator can emit). -/
+theorem C13_wf (cfg : Cfg) (t : Ty) (h : wfTy t = true) : wf (generate cfg t) = true := by
+  unfold generate
+  rw [wf_obj]
+  exact wf_gen cfg t h
 
 end Utv.C13
